@@ -1018,9 +1018,9 @@ impl<'a> Drop for ZipFile<'a> {
                 match reader.read(&mut buffer) {
                     Ok(0) => break,
                     Ok(_) => (),
-                    Err(e) => {
-                        panic!("Could not consume all of the output of the current ZipFile: {e:?}")
-                    }
+                    // The stream is broken: the next read of the caller reports it. A destructor
+                    // must not panic on an I/O error.
+                    Err(_) => break,
                 }
             }
         }
